@@ -1,10 +1,10 @@
 SPECIFICATION Spec
 CONSTANTS
-  Proto = "scgi"
-  Level = 2
+  Proto = "http"
+  Level = 0
   MaxChain = 1
   Pads = {0}
   Caps = {16384}
-  MaxRead = 0
+  MaxRead = 3
 INVARIANTS SegInv NotStuck CrossInv
 CHECK_DEADLOCK FALSE
